@@ -118,10 +118,12 @@ GenIf(env, at, depth) ==
   LET b == Body(env, at + 1, depth + 1, Pick(1..3))
   IN R(<<Tk("if true {\n")>> \o b.toks \o <<Tk("}\n")>>, env, b.out)
 
+\* the iterable is resolved outside the loop variable's scope: where it is a plain variable, every other loop reuses its
+\* name for the loop variable (`for a in a`)
 GenFor(env, at, depth) ==
-  LET name == Pick(Names)
+  LET e == Expr("array<int>", env, at + 3)
+      name == IF Len(e.toks) = 1 /\ e.toks[1].r = "use" /\ Chance(1, 2) THEN e.toks[1].s ELSE Pick(Names)
       head == <<Tk("for "), Dc(name, "int", "for"), Tk(" in ")>>
-      e == Expr("array<int>", env, at + 3)
       lv == Bind(name, at + 2, "int", E(<<>>, ToString(e.num), e.num, ""), FALSE, "for")
       b == Body(Append(env, lv), at + 3 + Len(e.toks) + 1 + 3, depth + 1, Pick(0..2))
   IN R(head \o e.toks \o <<Tk(" {\n")>> \o Show(lv) \o b.toks \o <<Tk("}\n")>>, env, lv.val \o "\n" \o b.out)
